@@ -7,6 +7,7 @@ from harness import c05 as C5
 from harness import c08 as C8
 from harness import c04 as C4
 from harness import c06 as C6
+from harness import c03 as C3
 
 PROPERTY = 'C17'
 ASSUMPTIONS = [
@@ -473,6 +474,8 @@ HARNESSES = [
            'reported under it, for every code the registries name for the field in the processor / OS context (ground instances: one file per context with one entry per code)'),
     H('h17_9_call_frame_instruction_names', C6.h_instr, lambda tier: [c for c in C6._instr_instances(tier) if not c.get('pre')], expect=('ok', 'rejected'),
       desc='call-frame instruction codes in entries are reported under their registry names: every opcode byte (the three primary opcodes with a symbolic 6-bit operand: all 64 values) through instruction_name (harness shared with C06)'),
+    H('h17_10_symbol_field_codes', C3.h_sym_layout, lambda tier: [dict(elfclass=c, little=l) for c, l in ((64, True), (32, False))], expect=('ok',),
+      desc='symbol binding, type, visibility and section index codes are named from the bits the ABI assigns to each field (visibility = st_other & 7: the Solaris visibilities 4-6 included), every byte of Elf_Sym symbolic (harness shared with C03)'),
     H('h17_2_tables', h_tables, lambda tier: [dict(table=i) for i in range(0, 90)], expect=('ok',),
       desc='every exported (name, value) pair whose name a registry defines: value equals a registry value (ground obligations)'),
 ]
